@@ -308,6 +308,32 @@ func runC12(c *Ctx) {
 		c.Check("C12-R5", "lease-bucket-writer:"+fnName(fn), fn.Pos(), ok, "a function other than lockOutput/unlockOutput writes the lease bucket")
 	}
 	c.Floor("C12-R5", "writers of the lease bucket", n, 2)
+	// who may end a lease: its owner (UnlockOutput), the expiry sweep (DeleteExpiredLockedOutputs) and a confirmed spend
+	// of the output (insertMinedTx) — each with its own guard rule above. A release from anywhere else (removal of an
+	// unconfirmed spender, a credit being recorded again, a rollback...) ends a lease that was neither released nor
+	// expired nor spent.
+	if ul := wtxFn(c, "C12-R5", "unlockOutput"); ul != nil {
+		var roots []*ssa.Function
+		for _, name := range []string{"UnlockOutput", "DeleteExpiredLockedOutputs", "insertMinedTx"} {
+			if f := wtxFn(c, "C12-R5", name); f != nil {
+				roots = append(roots, f)
+			}
+		}
+		nRel := 0
+		for _, cs := range p.realCallers(ul) {
+			nRel++
+			caller := outermost(cs.Parent())
+			ok := false
+			for _, r := range roots {
+				if p.inRegion(r, caller) {
+					ok = true
+				}
+			}
+			c.Check("C12-R5", "lease-released-only-by-owner-expiry-or-confirmed-spend:"+fnName(caller), cs.Pos(), ok,
+				fnName(caller)+" deletes a lease although it is neither the owner's release, the expiry sweep nor the confirmation of a spend: the output becomes selectable (and is counted in the balance) while its lease is still running")
+		}
+		c.Floor("C12-R5", "lease release sites", nRel, 3)
+	}
 	checkLeaseLayout(c)
 }
 
